@@ -235,6 +235,10 @@ def job_gen_run(args):
         # a quarter of the cases of every scheduling property run with UUIDs (the public default): identifiers are
         # compared up to renaming there
         ids = "uuid" if random.Random(seed ^ 0x1D5).random() < 0.25 else "test"
+        if ids == "uuid" and progs.ploop_shapes(case["prog"]):
+            # a literal parallel loop inside a loop (admitted for the loop-count properties) re-uses the instances of its
+            # first visit: with UUIDs they keep their identifiers (finding K3b) - such programs run with test ids
+            ids = "test"
     case["ids"] = ids
     mut = opts.get("mutate")
     case["mutate"] = (rng.random() < 0.5) if mut == "half" else bool(mut)
@@ -245,6 +249,8 @@ def job_gen_run(args):
                             **opts.get("gen", {}))
         case2.update({"imm": case["imm"], "ids": case["ids"], "mutate": case["mutate"], "gen_seed": seed})
         case = case2
+    if case["ids"] == "uuid" and opts.get("ids") == "mostly_test" and progs.ploop_shapes(case["prog"]):
+        case["ids"] = "test"  # finding K3b, see above (the program may have been replaced)
     r = job_run(case)
     ops = case.get("ops", [])
     case["_multi_listener"] = any(o["op"] == "reg" and o["fn"] != 0 for o in ops)
